@@ -41,7 +41,9 @@ RULE = ("ops spec_eval (BitcoinVM.eval_script: verdict and final stack) and spec
 ASSUMPTIONS = [
     "sig-oracle computed by the implementation: CheckSig(sig, pubkey, scriptCode, sigversion) inside the spec is answered by harness/c03spec.py "
     "from pycoin's signature hash (_signature_hash / _signature_for_hash_type_segwit, property C04) and pycoin's ECDSA verify (property C01); "
-    "DER lax parsing and public-key parsing of the oracle are independent ports of Core / libsecp256k1 rules",
+    "DER lax parsing and public-key parsing of the oracle are independent ports of Core / libsecp256k1 rules; every answer of the oracle is "
+    "recomputed on every run by the Lean spec (Spec/Secp256k1.lean: key parsing, lax DER, ECDSA over secp256k1) from the same signature hash, "
+    "so of the oracle only the signature hash itself remains 'computed by the implementation'",
     "the Lean spec is my rendering of Bitcoin Core's interpreter.cpp (0.13-0.15 vintage, the one pycoin's vectors come from), validated on every "
     "run by script_tests.json (1205 entries incl. error codes), tx_valid.json (120) and tx_invalid.json (80)",
     "single-script evaluation in the base sigversion is observed as SolutionChecker does it (MINIMALIF and WITNESS_PUBKEYTYPE removed from the flags)",
@@ -57,6 +59,7 @@ CASES: dict = {}      # op line -> Case (so that impl/oracle need not parse agai
 SPEC: dict = {}       # op line -> spec answer in canonical form (`ok …` / `fail`)
 IMPL_ERR: dict = {}   # op line -> errno name raised by the implementation (evidence only)
 STATS = {"same_code": 0, "diff_code": 0, "pairs": {}}
+_N = [0]
 
 
 # =================================================================== implementation side
@@ -80,6 +83,18 @@ def _impl_case(c: Case) -> tuple[str, str | None]:
             vm.is_solution_script = False
             out = vm.eval_script()
             return "ok " + S.fmt_stack(out), None
+        _N[0] += 1
+        if _N[0] % 8 == 0:
+            # the other two observation points must tell the same story as check_solution
+            ok1 = info.tx.is_solution_ok(info.idx, flags=c.flags)
+            bad = info.tx.bad_solution_count(flags=c.flags) if len(info.tx.txs_in) == 1 else (0 if ok1 else 1)
+            try:
+                info.tx.check_solution(info.idx, flags=c.flags)
+                ok0 = True
+            except ScriptError:
+                ok0 = False
+            if ok1 != ok0 or (bad == 0) != ok0:
+                return "err is_solution_ok=%s/bad_solution_count=%d/check_solution=%s" % (ok1, bad, ok0), None
         info.tx.check_solution(info.idx, flags=c.flags)
         return "ok", None
     except ScriptError as e:
@@ -156,6 +171,7 @@ def validate_spec(ctx):
         for c in allc:
             c.flags = norm(c.flags)
         S.resolve(allc)
+        S.cross_check_oracle()
         txcases += allc
         n_tx[name] = len(tvs)
         for cc, tx, txhex in tvs:
@@ -179,10 +195,28 @@ def validate_spec(ctx):
         mine = "fail" if r is None else "ok %d %d" % r
         if mine != o:
             bad.append("lax DER port differs from the spec on %s: %s vs %s" % (b.hex(), mine, o))
+    # the vectors' script text is parsed by an own port of Core's ParseScript; how often does pycoin's compiler read it the same way?
+    same_text = diff_text = 0
+    import json as _json
+    for e in _json.loads((S.DATA / "script_tests.json").read_text()):
+        if len(e) < 4:
+            continue
+        if isinstance(e[0], list):
+            e = e[1:]
+        for text in e[:2]:
+            try:
+                theirs = BTC.script.compile(text)
+            except Exception:  # noqa: BLE001
+                theirs = None
+            if theirs == S.parse_core_script(text):
+                same_text += 1
+            else:
+                diff_text += 1
     if bad:
         raise Infra("consensus spec does not reproduce Core's vectors (%d mismatches): %s" % (len(bad), " || ".join(bad[:5])))
     ctx.extra_cov["spec_validation"] = {"script_tests": len(cs), "tx_valid": n_tx["tx_valid.json"], "tx_invalid": n_tx["tx_invalid.json"],
                                         "tx_invalid_rejected_by_CheckTransaction_only": by_check_tx, "lax_der_cross_checks": len(blobs),
+                                        "script_texts_parsed_like_pycoin_compile": same_text, "script_texts_parsed_differently": diff_text,
                                         "mismatches": 0}
     return [c for c, _, _ in cs], txcases
 
@@ -438,10 +472,60 @@ class Synth:
             self.locktime_snippet()
         elif r < 0.90:
             self.O("CODESEPARATOR", 0)
+        elif r < 0.93:
+            self.checksig_snippet()
         elif r < 0.97 and level < 3:
             self.conditional(level)
         else:
             self.rare()
+
+    def checksig_snippet(self):
+        """CHECKSIG / CHECKMULTISIG on signature-like and key-like blobs (none of them verifies: encodings, counts, op-count, NULLFAIL)"""
+        rng = self.rng
+
+        def sigish():
+            r = rng.random()
+            if r < 0.35:
+                return b""
+            if r < 0.75:
+                return der_mutant(rng) + bytes([rng.choice(HASHTYPES)])
+            if r < 0.85:
+                return der_sig(rng.getrandbits(255) + 1, rng.getrandbits(250) + 1) + bytes([rng.choice(HASHTYPES)])
+            return rand_data(rng)[:80]
+
+        def keyish():
+            r = rng.random()
+            if r < 0.6:
+                return sec(rng.randrange(len(SECRETS)), rng.choice(KEYFORMS_OK))
+            if r < 0.85:
+                return sec(rng.randrange(len(SECRETS)), rng.choice(KEYFORMS_BAD))
+            return rand_data(rng)[:70]
+
+        if rng.random() < 0.5:
+            self.P(sigish())
+            self.P(keyish())
+            if rng.random() < 0.75:
+                self.O("CHECKSIG", -1)
+                if rng.random() < 0.6:
+                    self.O("NOT", 0)
+            else:
+                self.O("CHECKSIG", -1)
+                self.O("NOT", 0)
+                self.O("VERIFY", -1)
+        else:
+            nk = rng.choice([0, 1, 2, 3, 5, 20, 21])
+            ns = rng.randint(0, min(nk, 3)) if rng.random() < 0.9 else nk + 1
+            self.P(b"" if rng.random() < 0.8 else b"\x01")
+            for _ in range(ns):
+                self.P(sigish())
+            self.P(scriptnum(ns) if rng.random() < 0.9 else rand_num(rng))
+            for _ in range(nk):
+                self.P(keyish())
+            self.P(scriptnum(nk) if rng.random() < 0.9 else rand_num(rng))
+            self.O("CHECKMULTISIG", -(ns + nk + 2))
+            self.nops += nk
+            if rng.random() < 0.6:
+                self.O("NOT", 0)
 
     def locktime_snippet(self):
         rng = self.rng
@@ -1021,6 +1105,16 @@ def table_cases(out, thorough):
         for fl in (0, F["NULLDUMMY"], F["NULLFAIL"], F["NULLDUMMY"] | F["NULLFAIL"] | F["STRICTENC"]):
             for opn in ("CHECKMULTISIG", "CHECKMULTISIGVERIFY"):
                 out.append(Case("eval", fl, (sc(opn, "DEPTH"), stack), ctxs[0], "0", tag="table-multisig-shape"))
+    # every (key count, signature count) shape up to 3 keys incl. one signature too many, items present or one short
+    for nk in range(0, 4):
+        for ns in range(0, nk + 2):
+            for sigitem in (b"", b"s"):
+                full = [b""] + [sigitem] * ns + [scriptnum(ns)] + [b"k"] * nk + [scriptnum(nk)]
+                for stack in (full, full[1:], [b"\x01"] + full[1:]):
+                    for fl in (0, F["NULLDUMMY"] | F["NULLFAIL"]):
+                        for tail in (sc("DEPTH"), sc("NOT"), b""):
+                            out.append(Case("eval", fl, (sc("CHECKMULTISIG") + tail, stack), ctxs[0], "0", tag="table-multisig-shape"))
+                        out.append(Case("eval", fl, (sc("CHECKMULTISIGVERIFY", "1"), stack), ctxs[0], "0", tag="table-multisig-shape"))
     # --- stack size 999 / 1000 / 1001 (main + alt)
     for n in (999, 1000, 1001):
         out.append(Case("eval", 0, (b"\x51" * n, []), ctxs[0], "0", tag="table-stacksize"))
@@ -1050,6 +1144,42 @@ def table_cases(out, thorough):
         for kind in ("p2wsh", "p2sh-p2wsh"):
             out.append(wrap(None, kind, sc("DROP", "1"), [b"\x00" * ln], F["P2SH"] | F["WITNESS"], ctxs[0]))
             out[-1].tag = "table-wrapsize"
+
+
+# ---------------------------------------------------------------------------------------------- signature encoding table
+def sig_table(out, thorough):
+    """key encoding x signature class x flag class x (CHECKSIG | CHECKSIG NOT | 1-of-1, 1-of-2 CHECKMULTISIG [NOT]) x sigversion,
+    signature and dummy on the initial stack; real signatures over the script"""
+    ctx = S.fmt_ctx(amount=5000)
+    flag_sets = [0, F["STRICTENC"], F["DERSIG"], F["LOW_S"], F["NULLFAIL"], F["WITNESS_PUBKEYTYPE"], F["STRICTENC"] | F["NULLFAIL"] | F["NULLDUMMY"], STD]
+    sig_classes = [("empty", {}), ("good", {}), ("high", {"high_s": True}), ("seq-1", {"seqdelta": -1}), ("trail", {"trail": b"\x00"}), ("rpad", {"rpad": 1}),
+                   ("ht00", {"ht": 0}), ("ht04", {"ht": 4}), ("ht83", {"ht": 0x83}), ("tiny", {}), ("wrong", {})]
+    forms = KEYFORMS_OK + KEYFORMS_BAD
+    for form in forms:
+        ki = 4 if form in ("u33", "c5") else 0
+        pk = sec(ki, form)
+        other = sec(1, "c")
+        templates = [("cs", sc(push(pk), "CHECKSIG"), 0), ("cs-not", sc(push(pk), "CHECKSIG", "NOT"), 0),
+                     ("ms11", sc("1", push(pk), "1", "CHECKMULTISIG"), 1), ("ms11-not", sc("1", push(pk), "1", "CHECKMULTISIG", "NOT"), 1),
+                     ("ms12a", sc("1", push(pk), push(other), "2", "CHECKMULTISIG", "NOT"), 1), ("ms12b", sc("1", push(other), push(pk), "2", "CHECKMULTISIG", "NOT"), 1)]
+        for tname, script, dummy in templates:
+            for sv in ("0", "1"):
+                base = Case("eval", 0, (script, []), ctx, sv)
+                info = base.txinfo()
+                for cname, kw in sig_classes:
+                    kw = dict(kw)
+                    ht = kw.pop("ht", 1)
+                    if cname == "empty":
+                        sig = b""
+                    elif cname == "tiny":
+                        sig = b"\x30\x01"
+                    elif cname == "wrong":
+                        sig = sign(info, ki, script + b"\x61", ht, sv, high_s=False)
+                    else:
+                        kw.setdefault("high_s", False)
+                        sig = sign(info, ki, script, ht, sv, **kw)
+                    for fl in (flag_sets if thorough or cname in ("empty", "good", "seq-1") else flag_sets[:4] + flag_sets[-1:]):
+                        out.append(Case("eval", fl, (script, ([b""] if dummy else []) + [sig]), ctx, sv, tag="sigtable-" + tname))
 
 
 # ---------------------------------------------------------------------------------------------- deterministic pipeline table
@@ -1184,9 +1314,64 @@ def regression_cases():
     return out
 
 
+# ---------------------------------------------------------------------------------------------- anchored line coverage
+ANCHORS = ["pycoin/vm/VM.py", "pycoin/vm/ConditionalStack.py", "pycoin/vm/ScriptStreamer.py", "pycoin/coins/bitcoin/VM.py",
+           "pycoin/coins/bitcoin/make_instruction_lookup.py", "pycoin/coins/bitcoin/ScriptStreamer.py", "pycoin/coins/bitcoin/SolutionChecker.py",
+           "pycoin/coins/bitcoin/P2SChecker.py", "pycoin/coins/bitcoin/SegwitChecker.py", "pycoin/satoshi/intops.py", "pycoin/satoshi/stackops.py",
+           "pycoin/satoshi/miscops.py", "pycoin/satoshi/checksigops.py", "pycoin/satoshi/IntStreamer.py"]
+
+
+def _function_lines(path):
+    """line numbers that belong to function bodies (module-level statements run at import time and are not traced here)"""
+    lines = set()
+
+    def walk(code, inside):
+        if inside:
+            for _, _, ln in code.co_lines():
+                if ln is not None:
+                    lines.add(ln)
+        for c in code.co_consts:
+            if hasattr(c, "co_code"):
+                walk(c, True)
+
+    walk(compile(open(path).read(), path, "exec"), False)
+    return lines
+
+
+def line_coverage(ops):
+    """stdlib tracing of the anchored files while the implementation runs a sample of the cases"""
+    import sys
+    files = {str(lib.REPO / a): a for a in ANCHORS}
+    hit: dict = {a: set() for a in ANCHORS}
+
+    def tracer(frame, event, arg):
+        a = files.get(frame.f_code.co_filename)
+        if a is None:
+            return None
+        if event == "line" or event == "call":
+            hit[a].add(frame.f_lineno)
+        return tracer
+
+    sys.settrace(tracer)
+    try:
+        for op in ops:
+            _impl_case(_case(op))
+    finally:
+        sys.settrace(None)
+    rep = {}
+    for path, a in files.items():
+        want = _function_lines(path)
+        # lines of doctest-only / disabled-opcode helpers that the VM can never reach are listed, not hidden
+        miss = sorted(want - hit[a])
+        rep[a] = {"function_lines": len(want), "executed": len(want & hit[a]), "not_executed": miss[:60]}
+    return rep
+
+
 # ---------------------------------------------------------------------------------------------- gen
 def _emit_cases(cases, emit, ctx):
     S.resolve(cases)
+    S.cross_check_oracle()
+    ctx.extra_cov["sig_oracle_answers_recomputed_in_lean"] = {"answers": S.XCHECK_DONE[0], "true": S.XCHECK_DONE[1]}
     for c in cases:
         op = c.line()
         if op in CASES:
@@ -1221,6 +1406,7 @@ def gen(ctx, emit):
     cases: list = regression_cases()
     table_cases(cases, ctx.thorough)
     pipeline_table(cases, ctx.thorough)
+    sig_table(cases, ctx.thorough)
     _emit_cases(cases, emit, ctx)
 
     def batch(n, f):
@@ -1237,11 +1423,23 @@ def gen(ctx, emit):
             c = rand_ctx(rng)
             minimal = rng.random() < 0.6
             sv = "1" if rng.random() < 0.2 else "0"
-            cs.append(Case("eval", rand_eval_flags(rng), (synth_program(rng, minimal, S.parse_ctx(c)), rand_initial_stack(rng)), c, sv, tag="random-eval"))
+            prog, stack, fl = synth_program(rng, minimal, S.parse_ctx(c)), rand_initial_stack(rng), rand_eval_flags(rng)
+            if rng.random() < 0.04:
+                # a real signature over the whole script, checked by a prologue of the program
+                ki = rng.randrange(len(SECRETS))
+                pk = sec(ki, rng.choice(KEYFORMS_OK + KEYFORMS_OK + KEYFORMS_BAD))
+                prog = sc(push(pk), rng.choice(["CHECKSIGVERIFY", "CHECKSIGVERIFY", "CHECKSIG"])) + prog
+                base = Case("eval", fl, (prog, []), c, sv)
+                stack = stack + [sig_variant(rng, base.txinfo(), ki, prog, sv)[0]]
+            cs.append(Case("eval", fl, (prog, stack), c, sv, tag="random-eval"))
 
-    batch(ctx.n(25000, 240000), random_evals)
-    batch(ctx.n(6000, 40000), lambda k, cs: pipeline_scenarios(rng, k, cs))
-    batch(ctx.n(1500, 12000), lambda k, cs: sig_scenarios(rng, k, cs))
+    batch(ctx.n(25000, 600000), random_evals)
+    batch(ctx.n(6000, 100000), lambda k, cs: pipeline_scenarios(rng, k, cs))
+    batch(ctx.n(1500, 40000), lambda k, cs: sig_scenarios(rng, k, cs))
+    # anchored line coverage on a sample (every k-th case, all regression cases)
+    allops = list(CASES)
+    step = max(1, len(allops) // ctx.n(4000, 12000))
+    ctx.extra_cov["anchored_line_coverage"] = line_coverage(allops[::step])
     tot = STATS["same_code"] + STATS["diff_code"]
     ctx.extra_cov["error_code_agreement"] = {
         "both_fail": tot, "same_code": STATS["same_code"], "different_code": STATS["diff_code"],
